@@ -19,7 +19,7 @@ import numpy as np
 from ..core import Ctx, SimRng, close
 from ..runner import Check
 
-WRAPPED = ["pwc", "pwc_nn", "gnb", "lr", "sgdc"]
+WRAPPED = ["pwc", "pwc_nn", "pwc_prior", "gnb", "lr", "sgdc"]
 NATIVE_PF = {"gnb", "sgdc"}
 
 
@@ -31,6 +31,8 @@ def make_clf(name, classes, seed):
 
     if name == "pwc":
         return ParzenWindowClassifier(classes=classes, random_state=seed, metric_dict={"gamma": 0.7})
+    if name == "pwc_prior":
+        return ParzenWindowClassifier(classes=classes, random_state=seed, class_prior=0.5, metric_dict={"gamma": 0.7})
     if name == "pwc_nn":
         return ParzenWindowClassifier(classes=classes, random_state=seed, n_neighbors=2, metric_dict={"gamma": 0.7})
     if name == "gnb":
